@@ -11,8 +11,12 @@ from vlib.harness import Sub
 PROPERTY = "C12"
 RULE = ("generated outputs (as C01, >=2 refined levels, with or without part/sink groups; a quarter of the 3-D ones with "
         "16-24 CPUs and levelmin 3) x level predicates l<=k, l<k, l==k, a<l<b, l>=a, l!=k, l in {..} (boolean or 0/1 "
-        "masks, accepting at least one level), alone or ANDed with a value predicate and/or a position "
-        "interval.  Oracle from the model: L = highest accepted level; truncated tree = leaves of level < L plus all "
+        "masks, accepting at least one level), alone or ANDed with a value predicate (hydro, gravity or RT variable, "
+        "threshold taken among the cells inside the window) and/or a position interval placed on a cell of the truncated "
+        "tree that the level predicate accepts (a level-L cell where there is one; in the many-CPU regime one box per case "
+        "is narrow on every axis with a cap below levelmin); the selection may also name another group (part / sink) "
+        "before or after the mesh; for a third of the predicates the per-CPU files end after the records of level L, so "
+        "that reading beyond the cap fails.  Oracle from the model: L = highest accepted level; truncated tree = leaves of level < L plus all "
         "cells of level L (refined or not, with their stored restriction values); expected rows = those satisfying all "
         "predicates, compared as row multisets with all columns; meta lmax == L; when the predicate accepts every "
         "level <= L: sum of dx^ndim equals the box volume and the rows are exactly the truncated tree (no holes, no "
@@ -37,17 +41,36 @@ def case_st(draw):
         case.update(ncpu=draw(st.sampled_from([16, 24])), levelmin=3, levelmax=draw(st.integers(4, 5)), refine_p=[0.03],
                     ordering="hilbert", key_mode=draw(st.sampled_from(["uniform", "random"])), ghost_p=0.1, grav=False,
                     rt_vars=[], nboundary=0, max_cells=3500)
+    many = case["ncpu"] >= 16
+    value_vars = [v for v in case["hydro_vars"] if not v.startswith("B_")] + (["grav_potential"] if case.get("grav") else []) \
+        + list(case.get("rt_vars") or [])
     preds = []
-    for _ in range(draw(st.integers(2, 4))):
+    for k in range(draw(st.integers(2, 4))):
         p = {"level": draw(rs.level_preds(case["levelmax"]))}
         extra = draw(st.sampled_from(["none", "none", "val", "pos", "both"]))
+        if many and k == 0:
+            # a cap below levelmin with a box narrow on every axis: the coarse cells live in the file of the CPU that owns
+            # their father cell, which fine search cubes miss
+            p["level"] = {"t": "le", "k": draw(st.integers(1, 2)), "as_int": False}
+            extra = "pos"
         if extra in ("val", "both"):
-            p["val"] = draw(rs.value_preds([v for v in case["hydro_vars"] if not v.startswith("B_")]))
+            p["val"] = draw(rs.value_preds(value_vars))
+            p["val_from_window"] = True
         if extra in ("pos", "both"):
             p["pos"] = draw(rs.pos_preds(case["ndim"], case["levelmax"]))
-            if p["pos"]["form"] == "leaf" and draw(st.booleans()):
+            if p["pos"]["form"] == "leaf" and (draw(st.booleans()) or (many and k == 0)):
                 p["pos"]["axes"] = "xyz"[: case["ndim"]]
                 p["pos"]["shift"] = (p["pos"]["shift"] + [0.1, -0.2, 0.3])[: case["ndim"]]
+            if many and k == 0:
+                p["pos"] = dict(p["pos"], form="leaf", leaf=draw(st.floats(0, 0.999)), axes="xyz"[: case["ndim"]],
+                                rel=draw(st.sampled_from([0.02, 0.1, 0.3])), shift=[draw(st.floats(-0.4, 0.4)) for _ in range(3)],
+                                centred=True, by_size=False, edge=False, corner=None)
+                p["pos"].pop("axes_abs", None)
+        # other groups named in the selection next to the mesh (before or after it)
+        p["other"] = draw(st.sampled_from([None, None, None, ["part", False, "before"], ["part", False, "after"],
+                                           ["sink", False, "after"], ["part", {}, "before"]]))
+        # the files end after the records of level L: a loader that reads deeper than the cap runs off their end
+        p["truncate"] = draw(st.integers(0, 2)) == 0
         preds.append(p)
     case["preds"] = preds
     return case
@@ -62,7 +85,13 @@ def level_limited(case, r):
             if L is None:
                 continue
             exp_t = rm.expected_mesh(m, lcap=L)
-            res = rs.resolve(spec, m, exp_t)
+            # the box of a leaf-form position predicate sits on a cell of the truncated tree that the level predicate
+            # accepts, a level-L cell where there is one
+            acc = np.asarray(rs.level_accepts(spec["level"], exp_t["level"]), dtype=bool)
+            cand = np.nonzero(acc & (exp_t["level"] == L))[0]
+            if len(cand) == 0:
+                cand = np.nonzero(acc)[0]
+            res = rs.resolve(spec, m, exp_t, cand=cand)
             keep = rs.mask(res, m, exp_t)
             exp = rs.filter_exp(exp_t, keep)
             refined_at_L = bool(m.levels[L - 1].refined.any()) if L <= len(m.levels) else False
@@ -74,13 +103,32 @@ def level_limited(case, r):
             if accepts_all and not res["pos"] and not res["val"]:
                 r.label("tiling_case")
             sel = rs.build_select(osyris, res, m)
+            select = {"mesh": sel}
+            if spec.get("other"):
+                g, v, where = spec["other"]
+                select = {g: v, "mesh": sel} if where == "before" else {"mesh": sel, g: v}
+                r.label("select_names_other_group")
+            if res["pos"] and len(exp["level"]) and refined_at_L:
+                r.label("pos_keeps_truncated_cell")
+            if (res["pos"] and len(res["pos"]) == ndim and L < m.levelmin and m.ncpu >= 16 and len(exp["level"])
+                    and max(hi - lo for lo, hi in res["pos"].values()) < 0.5 ** m.levelmin):
+                r.label("narrow_box_cap_below_levelmin")
+            load_path = path
+            if spec.get("truncate") and L < m.levelmax:
+                load_path = env.scratch_dir("ramses_trunc_")
+                rm.write_output(m, load_path, max_level_written=L)
+                r.label("files_end_after_level_L")
             try:
-                ds, out = rc.quiet_load(osyris, nout, path, select={"mesh": sel})
+                ds, out = rc.quiet_load(osyris, nout if load_path is path else case["nout"], load_path, select=select)
             except Exception as e:
                 if len(exp["level"]) == 0:
                     continue      # nothing qualifies: an empty result may legitimately fail to assemble
-                r.bad(["load-raises", type(e).__name__], f"{e!r}; spec={spec} L={L}")
+                kind = "reads-beyond-level-cap" if load_path is not path else "load-raises"
+                r.bad([kind, type(e).__name__], f"{e!r}; spec={spec} L={L}" + (" (files end after level L)" if load_path is not path else ""))
                 return
+            finally:
+                if load_path is not path:
+                    rc.cleanup(load_path)
             if ds.meta.get("lmax") != L:
                 r.bad(["meta-lmax"], f"meta lmax {ds.meta.get('lmax')} but the predicate {spec['level']} accepts up to {L} "
                       f"(levelmax {m.levelmax})")
@@ -112,4 +160,6 @@ def level_limited(case, r):
 
 def subs(ctx):
     return [Sub("level_limited", level_limited, strategy=case_st(), quick=120, thorough=350,
-                required={"truncation_matters": 0.3, "tiling_case": 0.2})]
+                required={"truncation_matters": 0.3, "tiling_case": 0.2, "pos_keeps_truncated_cell": 0.1,
+                          "select_names_other_group": 0.2, "files_end_after_level_L": 0.15,
+                          "narrow_box_cap_below_levelmin": 0.02})]
